@@ -70,7 +70,7 @@ pub fn json_hist(h: &BTreeMap<String, u64>) -> String {
 
 pub fn bump(h: &mut BTreeMap<String, u64>, k: &str) { *h.entry(k.to_string()).or_insert(0) += 1; }
 
-const HEADER: &str = "Require Import KV.Run.Cases.\nLocal Open Scope Z_scope.";
+pub const HEADER: &str = "Require Import KV.Run.Cases.\nLocal Open Scope Z_scope.";
 
 /// algo stream: in-domain fresh calls through the allocating wrappers.
 pub fn stream_algo(opt: &HashMap<String, String>) -> i32 {
@@ -466,5 +466,56 @@ pub fn stream_capi(opt: &HashMap<String, String>) -> i32 {
         json_str(profile_name()), seed, count, distinct.len(), nontrivial.len(), json_hist(&hist_ops), json_hist(&hist_n), json_hist(&hist_m),
         samples.iter().map(|s| json_str(s)).collect::<Vec<_>>().join(","));
     fs::write(format!("{}/capi_{}_meta.json", dir, profile_name()), meta).unwrap();
+    0
+}
+
+// ------------------------------------------------------------------ access counts (C14)
+pub fn stream_cost(opt: &HashMap<String, String>) -> i32 {
+    let seed = opt_u64(opt, "seed", 1);
+    let thorough = opt_str(opt, "tier", "quick") == "thorough";
+    let count = opt_u64(opt, "count", if thorough { 900 } else { 300 }) as usize;
+    let shards = opt_u64(opt, "shards", 16) as usize;
+    let dir = opt_str(opt, "out", "build/streams");
+    let mut rng = Rng::new(seed.wrapping_mul(0x1000_0001).wrapping_add(31));
+    let mut sh = Shards::new(dir, "cost", shards);
+    let mut hist_n = BTreeMap::new(); let mut hist_f = BTreeMap::new(); let mut hist_a = BTreeMap::new();
+    let mut distinct = HashSet::new(); let mut nontrivial = HashSet::new();
+    let mut samples: Vec<String> = vec![]; let mut worst = 0.0f64;
+    let mut cases = vec![];
+    for i in 0..count {
+        let algo = [0u8, 2, 1, 0, 2][i % 5];
+        let method = if algo == 1 { 0 } else { rng.below(5) as u8 };
+        let wide = rng.below(5) != 0;
+        let cap: u64 = match (wide, thorough) { (true, false) => 44, (true, true) => 90, (false, false) => 10, (false, true) => 14 };
+        let n = if i % 9 == 0 { rng.below(5) } else { rng.range(8.min(cap), cap) };
+        let fam = ["sorted", "revsorted", "allequal", "lattice", "collinear", "uniform", "neartie", "duppoints", "euclid", "staircase"][rng.below(10) as usize];
+        let v = if fam == "staircase" {
+            let nn = n as usize; let mut v = vec![]; for i in 0..nn { for j in i + 1..nn { v.push(((nn - j) * (nn + 1) + (nn - i)) as f64); } } v
+        } else { matrix_f64(&mut rng, n as usize, fam, wide) };
+        cases.push(AlgoCase { algo, method, wide, n, bits: to_bits(&v, wide), family: if fam == "staircase" { "staircase" } else { FAMILIES.iter().find(|&&f| f == fam).unwrap() } });
+    }
+    let mut order: Vec<usize> = (0..cases.len()).collect();
+    order.sort_by_key(|&i| std::cmp::Reverse(cases[i].model_cost()));
+    for &i in &order {
+        let c = &cases[i];
+        let out = run_fresh_w(c.wide, c.algo, c.method, c.n, &c.bits);
+        let mut t = tokens(&out);
+        if let Outcome::Ok { acc, .. } = &out {
+            t.push(*acc as i128);
+            if c.n >= 8 { worst = worst.max(*acc as f64 / (10 * c.n * c.n + 50 * c.n) as f64); }
+        }
+        let coq = format!("{} {} {} {} {} {}", if c.wide { "cost64" } else { "cost32" }, profile_code(), c.algo, c.method, c.n, coq_list(&c.bits));
+        sh.add(&format!("k{}", i), c.model_cost(), coq, &t);
+        bump(&mut hist_n, &format!("{:02}", c.n)); bump(&mut hist_f, c.family); bump(&mut hist_a, &format!("{}:{}", ALGO_NAMES[c.algo as usize], METHOD_NAMES[c.method as usize]));
+        distinct.insert(c.key());
+        if c.n >= 8 { nontrivial.insert(c.key()); }
+        if samples.len() < 3 && c.n == 8 { samples.push(format!("{} {} n=8 {} -> count {}", ALGO_NAMES[c.algo as usize], METHOD_NAMES[c.method as usize], c.family, t.last().unwrap())); }
+    }
+    sh.write(HEADER);
+    let meta = format!(
+        "{{\"stream\":\"cost\",\"profile\":{},\"seed\":{},\"evaluations\":{},\"distinct\":{},\"distinct_nontrivial\":{},\"sizes\":{},\"families\":{},\"entries\":{},\"worst_count_over_bound\":{:.4},\"hook_active\":{},\"samples\":[{}]}}",
+        json_str(profile_name()), seed, cases.len(), distinct.len(), nontrivial.len(), json_hist(&hist_n), json_hist(&hist_f), json_hist(&hist_a), worst, cfg!(kodama_verif),
+        samples.iter().map(|s| json_str(s)).collect::<Vec<_>>().join(","));
+    fs::write(format!("{}/cost_{}_meta.json", dir, profile_name()), meta).unwrap();
     0
 }
